@@ -23,6 +23,9 @@ def scenarios(tier):
     L.append((SC.scn("S3-redo+ifchange-x", w["one"], ["redo --no-log x", "redo-ifchange x"], visible=VIS), 1 if q else 3))
     L.append((SC.scn("S4-error-exit-with-running-job", abort_world(), ["redo --no-log -j2 a", "redo-ifchange x"], visible=VIS),
               1 if q else 2))
+    # the out-of-band path: the target's lock must be held while redo-unlocked rebuilds it without a lock of its own
+    L.append((SC.scn("S5-oob-rebuild-vs-second-invocation", w["csum-mid"], ["redo-ifchange top", "redo-ifchange top"],
+                     setup=[["ifchange", ["top"]], ["edit", "s", "2"]], visible=VIS), 1 if q else 2))
     if not q:
         L.append((SC.scn("S1b-three-ifchange-x", w["one"], ["redo-ifchange x", "redo-ifchange x", "redo-ifchange x"], visible=VIS), 2))
         L.append((SC.scn("S2b-rebuild-shared-dep", w["shared"], ["redo-ifchange t1", "redo-ifchange t2"],
